@@ -5,7 +5,7 @@
  * Protocol (see rv/c14.py asan_text):
  *   new tree box boundary integrator | add id hash xhex yhex zhex | rm i ks | rmh h ks | get h
  *   sethash i h | setactive k | setnvar k | rmall | integrate nsteps | tupd | addvar |
- *   addo hash m r x y z vx vy vz | set name value | step n | ksprobe n index | end
+ *   addo hash m r x y z vx vy vz | set name value | step n | ksprobe n index | ksadd n enc | addfmt hash m a | addplummer n | end
  */
 #include <stdio.h>
 #include <stdlib.h>
@@ -13,6 +13,33 @@
 #include <stdint.h>
 #include <math.h>
 #include "rebound.h"
+
+/* collision resolvers that change the particle number from inside a step (the callback runs mid-step: MERCURIUS mode 1,
+   TRACE mode 1/3): merge, then add a light fragment far away from everything (hash 900000+k) */
+static int n_frag = 0;
+static int resolve_merge_addfrag(struct reb_simulation* const r, struct reb_collision c){
+    int ret = reb_collision_resolve_merge(r, c);
+    if (ret && n_frag < 6){
+        struct reb_particle f = {0};
+        f.m = 1e-9; f.r = 1e-6; f.x = 9.0 + 0.37*n_frag; f.y = -7.0 - 0.21*n_frag; f.z = 0.3; f.vx = 0.05; f.vy = 0.2;
+        f.hash = 900000 + n_frag;
+        n_frag++;
+        reb_simulation_add(r, f);
+    }
+    return ret;
+}
+/* add a fragment first (the array may move: the indices in c stay valid), then merge */
+static int resolve_addfrag_merge(struct reb_simulation* const r, struct reb_collision c){
+    if (r->particles[c.p1].last_collision==r->t || r->particles[c.p2].last_collision==r->t) return 0;
+    if (n_frag < 6){
+        struct reb_particle f = {0};
+        f.m = 1e-9; f.r = 1e-6; f.x = -9.0 - 0.37*n_frag; f.y = 7.0 + 0.21*n_frag; f.z = -0.3; f.vx = -0.05; f.vy = -0.2;
+        f.hash = 900000 + n_frag;
+        n_frag++;
+        reb_simulation_add(r, f);
+    }
+    return reb_collision_resolve_merge(r, c);
+}
 
 static double h2d(const char* s){
     if (strcmp(s,"nan")==0) return nan("");
@@ -67,6 +94,8 @@ int main(void){
             else if (!strcmp(name,"collision")) r->collision = (int)val;
             else if (!strcmp(name,"merge")) r->collision_resolve = reb_collision_resolve_merge;
             else if (!strcmp(name,"hardsphere")) r->collision_resolve = reb_collision_resolve_hardsphere;
+            else if (!strcmp(name,"merge_addfrag")){ r->collision_resolve = resolve_merge_addfrag; n_frag = 0; }
+            else if (!strcmp(name,"addfrag_merge")){ r->collision_resolve = resolve_addfrag_merge; n_frag = 0; }
             else if (!strcmp(name,"keepsorted")) r->collision_resolve_keep_sorted = (int)val;
             else if (!strcmp(name,"trackenergy")) r->track_energy_offset = (int)val;
             else if (!strcmp(name,"box")) reb_simulation_configure_box(r, val, 1, 1, 1);
@@ -101,6 +130,43 @@ int main(void){
             sscanf(line, "%*s %lld", &a);
             r->dt = 1e-6;
             reb_simulation_steps(r, (unsigned int)a); rc = 0;
+        }else if (!strcmp(op,"addfmt")){
+            /* addfmt hash m a : the variadic public entry point (orbit around particle 0 / the centre of mass) */
+            double m_, a_;
+            sscanf(line, "%*s %lld %lf %lf", &a, &m_, &a_);
+            if (r->N==0) reb_simulation_add_fmt(r, "m hash", m_, (uint32_t)a);
+            else reb_simulation_add_fmt(r, "m a hash", m_, a_, (uint32_t)a);
+            rc = 0;
+        }else if (!strcmp(op,"addplummer")){
+            sscanf(line, "%*s %lld", &a);
+            reb_simulation_add_plummer(r, (int)a, 1., 1.); rc = 0;
+        }else if (!strcmp(op,"ksadd")){
+            /* ksadd n enc : TRACE mid-step state with current_Ks[k] = k+2 and the first `enc` particles in the encounter map,
+               add one particle, print the whole (n+1)x(n+1) matrix the real reb_simulation_add leaves (cells it never wrote are
+               pre-filled with -7 by over-allocating and filling before the call) */
+            sscanf(line, "%*s %lld %lld", &a, &b);
+            struct reb_simulation* q = reb_simulation_create();
+            q->save_messages = 1;
+            q->integrator = REB_INTEGRATOR_TRACE;
+            int n = (int)a, enc = (int)b;
+            for (int i=0;i<n;i++){ struct reb_particle p = {0}; p.m = i?1e-3:1.; p.x = i; p.vy = i?1./sqrt((double)i):0.; reb_simulation_add(q, p); }
+            q->ri_trace.mode = 1;
+            q->ri_trace.N_allocated = n+1;      /* large enough: no realloc inside add, our pre-fill stays visible */
+            q->ri_trace.current_Ks = malloc(sizeof(int)*(n+1)*(n+1));
+            q->ri_trace.encounter_map = malloc(sizeof(int)*(n+1));
+            q->ri_trace.particles_backup = malloc(sizeof(struct reb_particle)*(n+1));
+            q->ri_trace.particles_backup_kepler = malloc(sizeof(struct reb_particle)*(n+1));
+            for (int k=0;k<(n+1)*(n+1);k++) q->ri_trace.current_Ks[k] = (k<n*n) ? k+2 : -7;
+            for (int k=0;k<n+1;k++) q->ri_trace.encounter_map[k] = k;
+            q->ri_trace.encounter_N = enc; q->ri_trace.encounter_N_active = enc;
+            struct reb_particle p = {0}; p.m = 1e-6; p.x = n+3.; p.vy = 0.1;
+            reb_simulation_add(q, p);
+            printf("A %u %d", q->N, q->ri_trace.encounter_N);
+            for (int k=0;k<(n+1)*(n+1);k++) printf(" %d", q->ri_trace.current_Ks[k]);
+            printf("\n");
+            q->ri_trace.mode = 0;
+            reb_simulation_free(q);
+            continue;
         }else if (!strcmp(op,"ksprobe")){
             /* ksprobe n index: TRACE mid-step state with current_Ks[k] = k, remove particle `index`, print the leading
                (n-1)x(n-1) block of the matrix as the real reb_simulation_remove_particle leaves it */
